@@ -127,6 +127,23 @@ def release(F, R, d):
                     after = [r for r in rms if r in b.reachable_after(bi)]
                     R.ob('C11.release', '%s|%s|PublishReceived|id-kept' % (d.name, top(b)), not before and not after,
                          'the packet id of a QoS 2 publish is released at PUBREC time (must stay reserved until PUBCOMP)', b.loc(bi))
+                    # a release on *some* path to the PUBREC is acceptable only for a PUBREC that ends the exchange, i.e. under a
+                    # numeric test "reason code >= 0x80"; any other condition (e.g. `!= Success`, which includes 0x10 No matching
+                    # subscribers, after which PUBREL still follows) frees an id that the sender is still using
+                    sometimes = [r for r in rms if r not in before and bi in b.reachable_after(r) and b.exists_path_corr(r, bi)]
+                    unjust = []
+                    for r in sometimes:
+                        just = False
+                        for sb_ in b.dom.get(r, ()):
+                            tt_ = b.blocks[sb_]['term']
+                            pl_ = op_place(tt_['discr']) if tt_['k'] == 'switch' else None
+                            for dd in (b.whole_defs(pl_['l']) if pl_ and not place_proj(pl_) else []):
+                                if dd[2] == 'assign' and dd[3]['rv']['k'] == 'bin' and dd[3]['rv']['op'] in ('Ge', 'Gt', 'Lt', 'Le') and (const_val(dd[3]['rv']['a']) in (0x80, 0x7f) or const_val(dd[3]['rv']['b']) in (0x80, 0x7f)):
+                                    just = True
+                        if not just:
+                            unjust.append(r)
+                    R.ob('C11.release', '%s|%s|PublishReceived|no-conditional-release-before-PUBREC' % (d.name, top(b)), not unjust,
+                         'on some path the packet id of a QoS 2 publish is released before its PUBREC is built, under a condition that is not "reason code >= 0x80": the sender continues with PUBREL for an id the receiver has already forgotten (and may have accepted again)', b.loc(unjust[0]) if unjust else b.loc(bi))
     if d.ver == 'v5':
         # acks produced by the control service pass through control_pkt: id argument must be the request's id
         b = d.call
